@@ -1509,9 +1509,11 @@ class AstEval:
                 else:
                     raise NameError(f"name '{arg1.id}' is not defined")
             elif isinstance(arg1, ast.Attribute):
-                var_name = await self.ast_attribute_collapse(arg1, check_undef=False)
+                var_name = await self.ast_attribute_collapse(arg1)
                 if not isinstance(var_name, str):
-                    raise NameError("state name should be 'domain.entity' or 'domain.entity.attr'")
+                    # the dotted name starts at an ordinary object, not at a state domain: del obj.attr
+                    delattr(await self.aeval(arg1.value), arg1.attr)
+                    continue
                 State.delete(var_name)
             else:
                 raise NotImplementedError(f"unknown target type {arg1} in del")
